@@ -55,7 +55,8 @@ class CacheRun:
         status = o.get('status', 200)
         v = next_version()
         blen = o.get('blen', 100) if status not in (204, 304) and q.method != 'HEAD' else 0
-        hs = [(n, self._subst_date(val)) for n, val in o.get('hdrs', [])]
+        sid = q.vid.split('.')[0]
+        hs = [(n, self._subst_url(self._subst_date(val), sid)) for n, val in o.get('hdrs', [])]
         if not any(n.lower() == 'date' for n, _ in hs) and not o.get('nodate'):
             hs.append(('Date', peers.http_date(self.now() + o.get('date_skew', 0))))
         if status != 304:
@@ -91,6 +92,20 @@ class CacheRun:
             oc.close()
             return True
         return False
+
+    def _subst_url(self, val, sid):
+        if isinstance(val, str) and val.startswith('$') and ':' in val:
+            kind, key = val[1:].split(':', 1)
+            port = self.origin.port
+            if kind == 'ABSURL':
+                return 'http://127.0.0.1:%d/s%s/%s' % (port, sid, key)
+            if kind == 'ABSPATH':
+                return '/s%s/%s' % (sid, key)
+            if kind == 'OTHERPORT':
+                return 'http://127.0.0.1:%d/s%s/%s' % (port + 1, sid, key)
+            if kind == 'OTHERHOST':
+                return 'http://localhost:%d/s%s/%s' % (port, sid, key)
+        return val
 
     def _subst_date(self, val):
         if isinstance(val, str) and val.startswith('$DATE'):
